@@ -1,0 +1,21 @@
+//go:build verif
+
+package serveruser
+
+// Exports for the external verification harness (C19). Add-only; compiled only with -tags verif.
+
+// VerifPolicyInForce returns the policy snapshot that discovery hands to a new
+// session of the named user: the policy field of that user in the published
+// generation (discoverUser copies user.policy into its result).
+func VerifPolicyInForce(r *Registry, name string) (Policy, bool) {
+	st := r.users.Load()
+	if st == nil {
+		return Policy{}, false
+	}
+	for i := range st.users {
+		if st.users[i].name == name {
+			return st.users[i].policy, true
+		}
+	}
+	return Policy{}, false
+}
